@@ -94,9 +94,9 @@ func (c *conn) terminate(err error) error {
 	}
 	c.logger.Debug("Terminating connection")
 	c.cancel(err) // Cancel the server context
-	if tx := c.tx.Swap(chan txMsg(nil)); tx != nil && tx != chan txMsg(nil) {
-		close(tx.(chan txMsg))
-	}
+	// Do not close the tx channel: a sender may have loaded it already and be about to send on it.
+	// Senders and the write loop all watch the connection context, which is canceled above.
+	c.tx.Store(chan txMsg(nil))
 	return c.stream.Close() // Close the connection
 }
 
@@ -204,7 +204,8 @@ func (c *conn) send(msg *kmip.ResponseMessage) error {
 	}
 	tx := c.tx.Load().(chan txMsg)
 	verifYield("kmipserver.conn.send.loaded")
-	errCh := make(chan error)
+	// Buffered so that the write loop can always report its result, even if we stopped waiting for it.
+	errCh := make(chan error, 1)
 	select {
 	case tx <- txMsg{msg: msg, err: errCh}:
 		select {
